@@ -206,10 +206,11 @@ def run_property(prop, tier, seed, replay_file=None):
         tot["states"] += r["distinct"]
         tot["transitions"] += r["states"]
         trace, st = E.replay(behs, c, prop + "-" + name, seed)
-        if st.get("gave_up") and prop != "C07":
-            raise E.ToolError("the harness hung in more than 50 runs of %s (calls that do not return are C07's business: run ./check C07)" % name)
         viols, consumed = E.validate(trace, prop + "-" + name, parts=8)
         new, listed = E.classify(viols, prop, known)
+        if st.get("gave_up") and prop != "C07" and not new:
+            # what was recorded before the harness gave up shows nothing of this property's own
+            raise E.ToolError("the harness hung in more than 50 runs of %s (calls that do not return are C07's business: run ./check C07)" % name)
         tot["behaviours"] += len(behs)
         tot["runs"] += consumed
         tot["misses"] += st["misses"]
